@@ -311,3 +311,24 @@ package kubeeventsmanager
 //@   ensures [stopped-at-most-once] nFactoryCancel <= old(nFactoryCancel) + 1
 //@   ensures [not-stopped-while-used] nFactoryCancel > old(nFactoryCancel) ==> card(old(c.data[index]).handlerRegistrations) == 0
 //@   ensures [last-user-stops-it] old(has(c.data, index)) && old(has(c.data[index].handlerRegistrations, informerId)) && card(old(c.data[index]).handlerRegistrations) == 0 ==> nFactoryCancel == old(nFactoryCancel) + 1
+
+// ---- C01 / C02: a namespace that disappears is forgotten completely --------------------------------
+// (if its informers stayed registered, the namespace would be ignored as "already started" when it
+// reappears, and every later change in it would be lost)
+//@ ghost nVaryingDelete int
+//@ ghost lastVaryingDeleted string
+//@ ghost nCancelForNsDelete int
+//@ trusted func (*varyingInformers).Delete
+//@   modifies nVaryingDelete, lastVaryingDeleted
+//@   ghostset nVaryingDelete := nVaryingDelete + 1
+//@   ghostset lastVaryingDeleted := key
+//@ trusted func (*cancelForNs).Delete
+//@   modifies nCancelForNsDelete
+//@   ghostset nCancelForNsDelete := nCancelForNsDelete + 1
+//@ trusted func (*cancelForNs).Load
+//@   modifies nothing
+//@ func (*monitor).CreateInformers$2
+//@   prop C01, C02
+//@   modifies nVaryingDelete, lastVaryingDeleted, nCancelForNsDelete
+//@   ensures [informers-and-cancel-entry-removed-together] nVaryingDelete - old(nVaryingDelete) == nCancelForNsDelete - old(nCancelForNsDelete)
+//@   ensures [the-deleted-namespace] nVaryingDelete > old(nVaryingDelete) ==> lastVaryingDeleted == nsName
